@@ -18,6 +18,7 @@ def run(ck):
     ]
     ck.coq_props()
     ic.run_regions(ck, "C02")
+    ic.run_bridge(ck, "C02")
     res = ic.run_level1(ck, "C02")
     if res is None:
         return
